@@ -65,4 +65,46 @@ example : ∃ c' last, recryptPath (fun _ => List.replicate 16 7) (List.replicat
     ⟨[1], [2], []⟩ [⟨[3], [4], []⟩, ⟨[5], [6], []⟩] (by decide) (by decide) (by decide)
   exact ⟨c', last, h1, by simpa using h2, by simpa using h3⟩
 
+/-! ### MS-MPPE keys along a path (the salt travels inside the value, unchanged) -/
+
+omit hmd5 in
+/-- hops for MS-MPPE keys: each re-encrypts value = salt ‖ ciphertext from the hop it arrived on to the next -/
+def msmppPath (md5 : Bytes → Bytes) : Bytes → Hop → List Hop → Option (Bytes × Hop)
+  | v, cur, [] => some (v, cur)
+  | v, cur, h :: hs =>
+    match msmpprecrypt md5 v cur.sec h.sec cur.auth h.auth with
+    | none => none
+    | some v' => msmppPath md5 v' h hs
+
+theorem msmpprecrypt_some (v oldsec newsec oldauth newauth : Bytes)
+    (ho : oldsec.length < 256) (hn : newsec.length < 256) (hv : msmppLenValid v.length = true) :
+    ∃ v', msmpprecrypt md5 v oldsec newsec oldauth newauth = some v' ∧ v'.length = v.length ∧ v'.take 2 = v.take 2 ∧
+      hiddenPlain md5 newsec newauth (v'.take 2) (v'.drop 2) = hiddenPlain md5 oldsec oldauth (v.take 2) (v.drop 2) := by
+  have h := msmpprecrypt_meets_spec md5 hmd5 v oldsec newsec oldauth newauth ho hn
+  unfold msmpprecryptOk at h
+  rw [hv] at h
+  simp only [if_true] at h
+  cases hr : msmpprecrypt md5 v oldsec newsec oldauth newauth with
+  | none => rw [hr] at h; simp at h
+  | some v' =>
+    rw [hr] at h
+    simp only [Bool.and_eq_true, beq_iff_eq] at h
+    exact ⟨v', rfl, h.1.1, h.1.2, h.2⟩
+
+/-- End to end for MS-MPPE-Send/Recv-Key over ANY number of hops: same salt, same length, and the key
+    the last hop's peer decrypts is the key the first hop's peer encrypted. -/
+theorem msmppPath_end_to_end (v : Bytes) (cur : Hop) (hs : List Hop)
+    (hv : msmppLenValid v.length = true) (hc : cur.sec.length < 256) (hall : ∀ h ∈ hs, h.sec.length < 256) :
+    ∃ v' last, msmppPath md5 v cur hs = some (v', last) ∧ v'.length = v.length ∧ v'.take 2 = v.take 2 ∧
+      hiddenPlain md5 last.sec last.auth (v'.take 2) (v'.drop 2) = hiddenPlain md5 cur.sec cur.auth (v.take 2) (v.drop 2) := by
+  induction hs generalizing v cur with
+  | nil => exact ⟨v, cur, rfl, rfl, rfl, rfl⟩
+  | cons h t ih =>
+    obtain ⟨v1, h1, hl1, hs1, hp1⟩ := msmpprecrypt_some md5 hmd5 v cur.sec h.sec cur.auth h.auth hc
+      (hall h List.mem_cons_self) hv
+    obtain ⟨v', last, hr, hl, hsalt, hp⟩ := ih v1 h (by rw [hl1]; exact hv) (hall h List.mem_cons_self)
+      (fun x hx => hall x (List.mem_cons_of_mem _ hx))
+    refine ⟨v', last, ?_, by rw [hl, hl1], by rw [hsalt, hs1], by rw [hp, hp1]⟩
+    simp only [msmppPath, h1]; exact hr
+
 end Rsp.Props.C03
